@@ -45,7 +45,7 @@ def diff(x, /, *, axis=-1, n=1, prepend=None, append=None):
     if len(combined) > 1:
         x = concat(combined, axis=axis, chunks=x.chunksize)
 
-    shape = tuple(s - n if i == axis else s for i, s in enumerate(x.shape))
+    shape = tuple(max(s - n, 0) if i == axis else s for i, s in enumerate(x.shape))
     chunks = normalize_chunks(x.chunksize, shape, dtype=x.dtype)
     depth = {axis: (0, n)}  # only need look-ahead values for differencing
     return map_overlap(
